@@ -146,6 +146,9 @@ where
     for step in 0..steps {
         let op = tape::w("history.op", 6);
         stats::count("steps.coin_events", 1);
+        if step < 8 {
+            stats::sig(op);
+        }
         match op {
             0 => {
                 let d = H::hash(&rng.next_u64().to_le_bytes());
